@@ -117,28 +117,29 @@ def clauses(case: dict, t: dict, file: str, tgt_same: bool, err: str, raised: bo
 def impl_run(case: dict, res: dict) -> dict:
     """A result record of the spec, with the <<>> = 'equal to the reference' shorthand expanded."""
     tree = res["tree"][0] if res["tree"] else case["ref"]
-    return {"place": res["place"], "order": res["order"], "file": res["file"], "err": res["err"], "raised": res["raised"],
+    return {"place": res["place"], "order": res["order"], "req": res["req"], "file": res["file"], "err": res["err"], "raised": res["raised"],
             "derefs": sorted(({"alias": d["alias"], "site": d["site"], "ok": d["ok"]} for d in res["derefs"]), key=str),
             "tree": tree, "tgt_same": not res["tgt"], "tgt": res["tgt"][0] if res["tgt"] else None,
             "trace": [{"op": s["op"], "n": s["n"], "i": s["i"]} for s in res["trace"]]}
 
 
-def abstract_case(case: dict, place: str, order: str) -> dict:
-    return {"cells": [case["a"], case["b"]], "mdoc": case["mdoc"], "place": place, "order": order}
+def abstract_case(case: dict, place: str, order: str, req: str = "top") -> dict:
+    ord_ = case["ref"]["self"]["ord"]       # ReqPath of the spec: the object asked for is the first member of the merged module
+    return {"cells": [case["a"], case["b"]], "mdoc": case["mdoc"], "place": place, "order": order, "req": req, "obj": ord_[0] if ord_ else None}
 
 
-def real_run(griffe, taps, case: dict, place: str, order: str, base: str, tgt0: dict) -> dict:
+def real_run(griffe, taps, case: dict, place: str, order: str, base: str, tgt0: dict, req: str = "top") -> dict:
     """One (placement, order) run of the real code, in the shape of impl_run()."""
-    d = os.path.join(base, f"{place}-{order}")
+    d = os.path.join(base, f"{place}-{order}-{req}")
     os.makedirs(d)
-    out = w.run_case(griffe, taps, abstract_case(case, place, order), d)
+    out = w.run_case(griffe, taps, abstract_case(case, place, order, req), d)
     err = out["exc"]
     tree = spec_tree(out.get("mod") if err == "none" else None)
     tgt = spec_tgt(out.get("tgt"))
     if tgt is None:      # load() raised: the target module is still in the loader, project it from there
         tgt = spec_tgt(out.get("tgt_after_error"))
     derefs = {(SITE.get(x["site"], x["site"]), x["alias"], x["ok"]) for x in out["derefs"]}
-    return {"place": place, "order": order, "file": {"py": "R", "pyi": "S"}.get(out.get("file"), "nil"), "err": err,
+    return {"place": place, "order": order, "req": req, "file": {"py": "R", "pyi": "S"}.get(out.get("file"), "nil"), "err": err,
             "raised": any(e is not None for e in out["merge_exc"]),
             "derefs": sorted(({"alias": a, "site": s, "ok": ok} for s, a, ok in derefs), key=str),
             "tree": tree, "tgt_same": tgt == tgt0, "tgt": None if tgt == tgt0 else tgt,
@@ -184,7 +185,7 @@ def check_case(griffe, taps, case: dict, base: str) -> dict:
         for c in CLAUSES:
             if (not mine[c]) != res["cl"][c]:
                 rep["machinery"].append(f"clause {c} evaluated differently by TLC ({res['cl'][c]}) and by c19_check ({mine[c]}) on {imp['place']}/{imp['order']}")
-        real = real_run(griffe, taps, case, imp["place"], imp["order"], base, tgt0)
+        real = real_run(griffe, taps, case, imp["place"], imp["order"], base, tgt0, imp["req"])
         rep["runs"] += 1
         reals.append(real)
         impls.append(imp)
@@ -194,14 +195,14 @@ def check_case(griffe, taps, case: dict, base: str) -> dict:
                 sig = {"clause": c, "tags": _tagstr(case), "predicted": got[c] == mine[c], "place": real["place"],
                        "site": "+".join(sorted({d["site"] for d in real["derefs"] if d["ok"]})) or "-"}
                 what = (f"{c} broken at {got[c]} (model: {mine[c] or 'holds'}) for a={_cell(case['a'])} b={_cell(case['b'])} mdoc={case['mdoc']} "
-                        f"place={real['place']} order={real['order']} err={real['err']} {real['exc_text'][:80]}")
+                        f"place={real['place']} order={real['order']} req={real['req']} err={real['err']} {real['exc_text'][:80]}")
                 rep["violations"].append((sig, what))
         same = all(real[k] == imp[k] for k in ("file", "err", "raised", "derefs", "tree", "tgt_same", "trace"))
         if same and not real["tgt_same"]:
             same = real["tgt"] == imp["tgt"]
         if not same:
             diff = [k for k in ("file", "err", "raised", "derefs", "tree", "tgt_same", "tgt", "trace") if real.get(k) != imp.get(k)]
-            rep["drift"].append(f"{_cell(case['a'])} | {_cell(case['b'])} {real['place']}/{real['order']}: real differs from Impl in {diff}")
+            rep["drift"].append(f"{_cell(case['a'])} | {_cell(case['b'])} {real['place']}/{real['order']}/{real['req']}: real differs from Impl in {diff}")
         if real["err"] != "none":
             rep["facts"].add("load-raised")
         if real["raised"] and real["file"] == "S":
@@ -210,7 +211,7 @@ def check_case(griffe, taps, case: dict, base: str) -> dict:
             rep["facts"].add(f"deref-{d['site']}-{'ok' if d['ok'] else 'fail'}")
     pr, pi = _partition(reals), _partition(impls)
     if len(pr) > 1:
-        names = [[f"{reals[i]['place']}/{reals[i]['order']}" for i in g] for g in pr]
+        names = [[f"{reals[i]['place']}/{reals[i]['order']}/{reals[i]['req']}" for i in g] for g in pr]
         sig = {"clause": "same", "tags": _tagstr(case), "predicted": pr == pi, "place": "all", "site": "-"}
         rep["violations"].append((sig, f"result depends on placement/order: groups {names} for a={_cell(case['a'])} b={_cell(case['b'])} mdoc={case['mdoc']}"))
     rep["facts"] = sorted(rep["facts"])
